@@ -106,6 +106,9 @@ CLAIMED = {
     "C14": ("COVER (every body receives its reaction), PAIRIDX (per-body arrays indexed by the body being processed; parent data from the body's own parent, only for non-Ground bodies), SWEEP (free-body method inward, hand-over to the parent on every non-root iteration), FRAME (adjacency and point-difference naming) on the two reaction-force routines",
             "Static decision of the coverage / pairing / frame clauses of C14 (DESIGN section 3) for calcMobilizerReactionForces and ...UsingFreebodyMethod: every body gets a reaction, computed from that body's own articulated quantities and its own parent's acceleration, shifted by vectors whose names match how they are built; the free-body variant visits children before parents and hands every child's reaction to its parent's balance. "
             "That the reactions satisfy each body's Newton-Euler equation is numerical and NOT decided."),
+    "C39": ("EVALGATE (CMA-ES: resample-into-limits on every path between sampling and evaluation; both limit tests per coordinate; start point tested), PAIR (returned objective belongs to the returned parameters; wrappers evaluate at the array and into the location they were given), STATUS (normal return only after the backend reported convergence), LIMITS (system limits handed to L-BFGS-B / IPOPT in order, bound-code table, constraint rows and tolerance options), SELECT (BestAvailable guards) on the optimizer drivers",
+            "Static decision of the driver clauses of C39 (DESIGN section 3): the CMA-ES driver evaluates the objective only at points that passed both limit tests on every coordinate; every driver returns the objective value that belongs to the parameters it returns; L-BFGS-B and IPOPT drivers return normally only when the backend reported convergence and hand the backend the system's own limits, bound codes, constraint rows and tolerances; the default algorithm choice never constructs a driver that ignores limits or constraints the problem has. "
+            "Optimality, descent, feasibility of IPOPT / L-BFGS-B iterates and CMA-ES reproducibility are produced inside the vendored solvers and are NOT decided."),
 }
 NA = {
  "C03": "derivative relation between numeric routines; needs symbolic differentiation (other family)",
@@ -122,7 +125,6 @@ NA = {
  "C34": "numerical geometry with iterative solvers",
  "C36": "containment and query equality are numerical/geometric",
  "C37": "constitutive formulas, clamps and friction limits are numerical",
- "C39": "optimality/feasibility are values produced by iterative solvers",
  "C40": "error bounds are numerical analysis",
  "C41": "derivative/value consistency of formulas is numerical/symbolic",
  "C42": "graph-algorithm post-condition over all input graphs needs a proof of the algorithm, not a shape rule",
